@@ -31,6 +31,7 @@ def plan(tier, seed):
     shards = []
     for cls in ("midpoint", "random", "large", "negzero"):
         shards += [{"cls": cls, "seed": seed, "shard": i, "n": 60} for i in range(k)]
+    shards += [{"cls": "huge", "seed": seed, "shard": i, "n": 30} for i in range(max(2, k // 4))]
     shards += [{"cls": "cli", "seed": seed, "shard": i, "n": 10} for i in range(16 if tier == "quick" else 200)]
     shards += [{"cls": "mcp", "seed": seed, "shard": i, "n": 4} for i in range(8 if tier == "quick" else 80)]
     return shards
@@ -97,7 +98,26 @@ def negzero_ledger(rng):
     return sorted(txs + [t for t in other if t["ticker"] != tk], key=lambda t: t["date"])
 
 
+def huge_ledger(rng):
+    """Amounts of 1e13 .. 1e20 pounds (larger figures wrap inside the PDF cells, which the reader does not follow): beyond what a binary double holds to the penny (2^53 pence = 9.0e13 pounds)."""
+    txs, _ = gen_ledger(rng, Opts(capital=False, splits=False, n_sec=(1, 2), steps=(3, 8)))
+    scale = 10 ** rng.randint(10, 12)
+    for t in txs:
+        if t["kind"] in ("BUY", "SELL"):
+            t["price"][0] = dstr(fr(t["price"][0]) * scale)
+            t["fees"][0] = dstr(fr(t["fees"][0]) * (scale // 1000))
+    return txs
+
+
+def _long_figures(d):
+    """A disposal whose calculation lines carry a figure of 11+ digits: the PDF cell wraps such a line."""
+    up = abs(d["gross"] / d["qty"]) if d["qty"] else ZERO
+    return max(abs(d["gross"]), abs(d["net"]), up) >= 10 ** 10
+
+
 def gen_case(rng, cls):
+    if cls == "huge":
+        return huge_ledger(rng)
     if cls == "midpoint":
         return midpoint_ledger(rng)
     if cls == "large":
@@ -148,7 +168,11 @@ class Checker:
             return
         if not fmt.money_value_ok(shown, value):
             sig = f"{self.front}:figure-not-value-or-pence-rounding"
-            if mid and abs(shown - value) <= Fraction(1, 100):
+            if self.front == "pdf" and abs(value) >= 10 ** 13 and abs(shown - value) <= abs(value) * Fraction(5, 10 ** 16):
+                # the figure is the value pushed through binary doubles (relative error within 5e-16, i.e. a couple of
+                # units in the 16th significant digit): the template receives and combines its numbers as floats (F22)
+                sig = "pdf:figure-is-a-binary-double-approximation:magnitude>=1e13"
+            elif mid and abs(shown - value) <= Fraction(1, 100):
                 sig += ":half-penny-midpoint"
             self.viols.append({"clause": "figure-differs-from-computed-value", "signature": sig,
                                "detail": f"{label}: shown {shown_str.strip()!r}, computed {dstr_safe(value)} "
@@ -457,12 +481,18 @@ def check_pdf(runs, rep, txs, cnt, viols):
             if d["qty"] != 0:
                 ck.money(f"{d['ticker']} {d['date']} unit price", pdf_money(gm.group(2)), d["gross"] / d["qty"])
         else:
-            viols.append({"clause": "gross-line-missing", "signature": "pdf:gross-line-missing", "detail": seg[:160]})
+            if _long_figures(d):
+                cnt["pdf_calculation_lines_wrapped(11+ digit figures; not read)"] += 1     # the cell breaks the line in two
+            else:
+                viols.append({"clause": "gross-line-missing", "signature": "pdf:gross-line-missing", "detail": seg[:160]})
         fees = d["gross"] - d["net"]
         nm = re.search(r"Net Proceeds:\n(" + M + r") [−-] (" + M + ") = (" + M + ")", seg)
         if fees > 0:
             if not nm:
-                viols.append({"clause": "net-line-missing", "signature": "pdf:net-line-missing", "detail": f"{d['ticker']} {d['date']}"})
+                if _long_figures(d):
+                    cnt["pdf_calculation_lines_wrapped(11+ digit figures; not read)"] += 1
+                else:
+                    viols.append({"clause": "net-line-missing", "signature": "pdf:net-line-missing", "detail": f"{d['ticker']} {d['date']}"})
             else:
                 ck.money(f"{d['ticker']} {d['date']} net-line fees", pdf_money(nm.group(2)), fees)
                 ck.money(f"{d['ticker']} {d['date']} net", pdf_money(nm.group(3)), d["net"])
